@@ -133,11 +133,35 @@ def _flatten_chain(stmt):
         return out + [(None, stmt.orelse)]
 
 
-def _codec_of_body(stmts, fn, at):
-    names = {n.id for s in stmts for n in ast.walk(s) if isinstance(n, ast.Name) and n.id in MODULES}
+SHARED = []     # module-level (de)compressor objects used by a branch instead of a per-stream one: (where, name)
+
+
+def _shared_codec_objects(mod, stmts):
+    """Names in the statements that denote module-level (de)compressor INSTANCES -> [(name, codec, role)]"""
+    out = []
+    for s in stmts:
+        for n in ast.walk(s):
+            if isinstance(n, ast.Name) and n.id in vars(mod) and n.id not in MODULES:
+                v = vars(mod)[n.id]
+                tm, tn = type(v).__module__ or "", type(v).__name__
+                if isinstance(v, (type, type(ast), bool, int, str, bytes)) or callable(v) and not tm.startswith(("zstandard", "lz4", "_bz2", "zlib", "bz2", "gzip")):
+                    continue
+                codec = "Zstd" if tm.startswith("zstandard") else "Lz4" if tm.startswith("lz4") else "Bz2" if tm in ("_bz2", "bz2") \
+                    else "Gzip" if tm in ("zlib", "gzip") else None
+                if codec:
+                    out.append((n.id, codec, "d" if "ecompress" in tn else "c"))
+    return out
+
+
+def _codec_of_body(stmts, fn, at, mod=None):
+    names = {MODULES[n.id] for s in stmts for n in ast.walk(s) if isinstance(n, ast.Name) and n.id in MODULES}
+    if mod is not None:
+        for name, codec, _ in _shared_codec_objects(mod, stmts):
+            names.add(codec)
+            SHARED.append((_where(fn, at), name))
     if len(names) != 1:
         raise Unsupported("%s: branch body uses %s (expected exactly one of gzip/bz2/lz4/zstd)" % (_where(fn, at), sorted(names) or "none"))
-    return MODULES[names.pop()]
+    return names.pop()
 
 
 def _peek_assign(stmt):
@@ -216,7 +240,7 @@ def open_stream_facts(mod):
                 raise Unsupported("%s: branch does not rebind fp" % _where(fn, last))
             if not any(_is_name(n, "fp") for st in stmts for n in ast.walk(st.value)):
                 raise Unsupported("%s: the wrapper is not built around fp" % _where(fn, last))
-            chain.append((flag, pt[0], pt[1], _codec_of_body(stmts, fn, test)))
+            chain.append((flag, pt[0], pt[1], _codec_of_body(stmts, fn, test, mod)))
     return dict(passthrough=passthrough, peek=peeklen, chain=chain)
 
 
@@ -240,7 +264,7 @@ def _attrs(stmts):
     return [n.attr for s in stmts for n in ast.walk(s) if isinstance(n, ast.Attribute)]
 
 
-def _ext_branch(test, stmts, outvar, fn):
+def _ext_branch(test, stmts, outvar, fn, mod=None):
     sufs = _endswith_test(test, fn)
     if sufs is None:
         raise Unsupported("%s: unrecognised extension test" % _where(fn, test))
@@ -253,7 +277,7 @@ def _ext_branch(test, stmts, outvar, fn):
             and stmts[0].test.operand.id in FLAGS:
         flag = FLAGS[stmts[0].test.operand.id]
         stmts = stmts[1:]
-    codec = _codec_of_body(stmts, fn, test)
+    codec = _codec_of_body(stmts, fn, test, mod)
 
     def simple(ss):
         return ss and all(isinstance(x, ast.Assign) and len(x.targets) == 1 and _is_name(x.targets[0]) for x in ss) \
@@ -271,6 +295,9 @@ def _ext_branch(test, stmts, outvar, fn):
         if not (simple(rd) and simple(wr)):
             raise Unsupported("%s: read/write split bodies are not simple assignments to fp" % _where(fn, t))
         ra, wa = _attrs(rd), _attrs(wr)
+        if mod is not None:      # a module-level decompressor / compressor instance counts as building one
+            ra += ["Decompressor" if r == "d" else "Compressor" for _, _, r in _shared_codec_objects(mod, rd)]
+            wa += ["Decompressor" if r == "d" else "Compressor" for _, _, r in _shared_codec_objects(mod, wr)]
         if not any("ecompress" in a for a in ra) or any("ecompress" in a for a in wa) \
                 or not any("ompress" in a for a in wa) or any(a.endswith("Compressor") or a == "stream_writer" for a in ra):
             raise Unsupported("%s: the reading side must build a decompressor and the writing side a compressor" % _where(fn, t))
@@ -355,7 +382,7 @@ def open_path_facts(mod):
                 for test, stmts in _flatten_chain(s):
                     if test is None:
                         raise Unsupported("%s: final else in the extension chain" % _where(fn, s))
-                    chain.append(_ext_branch(test, stmts, outvar, fn))
+                    chain.append(_ext_branch(test, stmts, outvar, fn, mod))
                 continue
             # if not fp: ...
             if isinstance(t, ast.UnaryOp) and isinstance(t.op, ast.Not) and _is_name(t.operand, "fp") and not s.orelse \
@@ -497,6 +524,7 @@ def gen_detect():
     for name in FLAGS:
         if not isinstance(getattr(base, name, None), bool):
             raise Unsupported("flow.record.base.%s is not a bool" % name)
+    del SHARED[:]
     os_ = open_stream_facts(base)
     op_ = open_path_facts(base)
     fa_ = find_adapter_facts(base)
@@ -531,6 +559,9 @@ def gen_detect():
     out += "Definition stream_header_frame : bytes := %s.\n\n" % cbytes(frame)
     out += "Definition the_facts : facts :=\n  {| f_sniff_chain := sniff_chain; f_sniff_peek := %s; f_writer_passthrough := %s;\n" % (
         cnat(os_["peek"]), cbool(os_["passthrough"]))
+    if SHARED:
+        out += "     (* NOT per stream: %s *)\n" % "; ".join("%s uses module-level %s" % x for x in SHARED)
+    out += "     f_private_codec_state := %s;\n" % cbool(not SHARED)
     out += "     f_ext_chain := ext_chain; f_path_fallback_sniffs := %s; f_stdin_fallback_sniffs := %s;\n" % (
         cbool(op_["fallback"][0]), cbool(op_["fallback"][1]))
     out += "     f_cont_chain := cont_chain; f_cont_peek := %s;\n" % cnat(fa_["peek"])
